@@ -66,8 +66,25 @@ impl<SystemType : System> CurrentFileStates<SystemType> {
     { unimplemented!() }
 }
 
+// ---- the real BuildError (its payload types are opaque here: only which variant is built, and from what, matters) ----
+struct RecvError { x: u8 }
+struct SendError<T> { x: Ghost<Option<T>> }
+struct CurrentFileStatesError { x: u8 }
+mod io { pub struct Error { pub x: u8 } }
+struct SystemError { x: u8 }
+struct WorkError { x: u8 }
+struct ParseError { x: u8 }
+struct TopologicalSortError { x: u8 }
+struct HistoryError { x: u8 }
+struct DownloadUrlsError { x: u8 }
+//@ extract packet.rs struct Packet
+//@ end
+//@ extract packet.rs enum PacketError
+//@ end
+//@ extract build.rs enum BuildError
+//@ end
+
 // ================= clean(): one thread per rule of the plan =================
-struct WorkErrorG { x: u8 }
 // the handle of a spawned clean thread remembers what the thread was given (`thread::spawn` is external: R7)
 struct CleanHandle<SystemType : System> { job: Ghost<(Blob, SystemType, SysCache<SystemType>)> }
 #[verifier::external_body]
@@ -111,18 +128,15 @@ spec fn clean_lists(nodes: Seq<Node>) -> Seq<Seq<String>> { Seq::new(nodes.len()
 // ================= get_nodes(): the plan both build() and clean() work from =================
 //@ extract rule.rs struct Rule
 //@ end
-struct ParseError { x: u8 }
-struct TopologicalSortError { x: u8 }
-enum PlanError { RuleFileFailedToParse(ParseError), TopologicalSortFailed(TopologicalSortError), Other(u8) }   // (the variants of BuildError this code constructs)
 // ASSUMED here (each is under contract in its own unit: parse_all in unit P, the sorter in unit S; reading the rules files goes
 // through the assumed System contract): what they return is a function of their arguments
-uninterp spec fn files_read(paths: Seq<String>) -> Result<Seq<(String, String)>, PlanError>;
+uninterp spec fn files_read(paths: Seq<String>) -> Result<Seq<(String, String)>, BuildError>;
 uninterp spec fn parsed(texts: Seq<(String, String)>) -> Result<Seq<Rule>, ParseError>;
 uninterp spec fn plan_for(rules: Seq<Rule>, goal: Seq<char>) -> Result<NodePack, TopologicalSortError>;
 uninterp spec fn plan_for_all(rules: Seq<Rule>) -> Result<NodePack, TopologicalSortError>;
 #[verifier::external_body]
-fn read_all_rules_files_to_strings<SystemType : System>(system : &SystemType, rulefile_paths : Vec<String>) -> (r: Result<Vec<(String, String)>, PlanError>)
-    ensures (match r { Ok(v) => files_read(rulefile_paths@) == Ok::<Seq<(String, String)>, PlanError>(v@), Err(e) => files_read(rulefile_paths@) == Err::<Seq<(String, String)>, PlanError>(e) })
+fn read_all_rules_files_to_strings<SystemType : System>(system : &SystemType, rulefile_paths : Vec<String>) -> (r: Result<Vec<(String, String)>, BuildError>)
+    ensures (match r { Ok(v) => files_read(rulefile_paths@) == Ok::<Seq<(String, String)>, BuildError>(v@), Err(e) => files_read(rulefile_paths@) == Err::<Seq<(String, String)>, BuildError>(e) })
 { unimplemented!() }
 #[verifier::external_body]
 fn parse_all(contents : Vec<(String, String)>) -> (r: Result<Vec<Rule>, ParseError>)
@@ -140,27 +154,104 @@ fn topological_sort_all(rules : Vec<Rule>) -> (r: Result<NodePack, TopologicalSo
 //@ extract build.rs fn get_nodes
 //@ props C01 C02 C09 C10 C12
 //@ ret res
-//@ retype 1 /Result<NodePack, BuildError>/ => Result<NodePack, PlanError>
-//@ rewrite * /BuildError::/ => PlanError::
 //@ spec
     ensures
         // the plan is the sorter's plan for the rules parsed from exactly the given files: restricted to the goal when one is given,
         // the whole graph otherwise; a file that cannot be read, a parse error and a sorter error each come back as such          //# O-G-plan-of-given-files [C01,C02,C09,C10,C12]
-        files_read(rulefile_paths@) matches Err(e) ==> res == Err::<NodePack, PlanError>(e),
+        files_read(rulefile_paths@) matches Err(e) ==> res == Err::<NodePack, BuildError>(e),
         files_read(rulefile_paths@) matches Ok(texts) ==> (match parsed(texts) {
-            Err(pe) => res matches Err(PlanError::RuleFileFailedToParse(e)) && e == pe,
+            Err(pe) => res matches Err(BuildError::RuleFileFailedToParse(e)) && e == pe,
             Ok(rules) => (match goal_target_opt {
-                Some(goal) => (match plan_for(rules, goal@) { Ok(pack) => res == Ok::<NodePack, PlanError>(pack), Err(se) => res matches Err(PlanError::TopologicalSortFailed(e)) && e == se }),
-                None => (match plan_for_all(rules) { Ok(pack) => res == Ok::<NodePack, PlanError>(pack), Err(se) => res matches Err(PlanError::TopologicalSortFailed(e)) && e == se }),
+                Some(goal) => (match plan_for(rules, goal@) { Ok(pack) => res == Ok::<NodePack, BuildError>(pack), Err(se) => res matches Err(BuildError::TopologicalSortFailed(e)) && e == se }),
+                None => (match plan_for_all(rules) { Ok(pack) => res == Ok::<NodePack, BuildError>(pack), Err(se) => res matches Err(BuildError::TopologicalSortFailed(e)) && e == se }),
             }),
         }),
 //@ end
 
+// ================= the HEADS of build() and clean(): everything before the spawn loops =================
+//@ extract build.rs struct BuildParams
+//@ end
+//@ extract directory.rs enum InitDirectoryError
+//@ end
+impl DownloadUrls {
+//@ extract build.rs impl /DownloadUrls$/ fn new
+//@ props C01
+//@ ret res
+//@ spec
+        ensures res.urls@.len() == 0,
+//@ end
+}
+// ASSUMED here (each is under contract elsewhere: directory::init in unit H, get_nodes above, ChannelPack::new in unit E; reading
+// the url list goes through toml, external): what they return is a function of their arguments (and of the files they read, which
+// nothing changes between these calls -- init creates ruler's own directories only: O-H-init-frame)
+uninterp spec fn init_res<SystemType : System>(dir: Seq<char>) -> Result<Elements<SystemType>, InitDirectoryError>;
+uninterp spec fn urls_res(path: Seq<char>) -> Result<DownloadUrls, DownloadUrlsError>;
+uninterp spec fn nodes_res(paths: Seq<String>, goal: Option<String>) -> Result<NodePack, BuildError>;
+uninterp spec fn wired_pack(np: NodePack) -> ChannelPack;
+#[verifier::external_body]
+fn directory_init<SystemType : System>(system : &mut SystemType, directory : &str) -> (r: Result<Elements<SystemType>, InitDirectoryError>)
+    ensures r == init_res::<SystemType>(directory@)
+{ unimplemented!() }
+#[verifier::external_body]
+fn read_download_urls<SystemType : System>(system : &SystemType, path_str : &str) -> (r: Result<DownloadUrls, DownloadUrlsError>)
+    ensures r == urls_res(path_str@)
+{ unimplemented!() }
+#[verifier::external_body]
+fn get_nodes_stub<SystemType : System>(system : &SystemType, rulefile_paths : Vec<String>, goal_target_opt: Option<String>) -> (r: Result<NodePack, BuildError>)
+    ensures r == nodes_res(rulefile_paths@, goal_target_opt)
+{ unimplemented!() }
+impl ChannelPack {
+    #[verifier::external_body]
+    fn new(node_pack : NodePack) -> (r: ChannelPack) ensures r == wired_pack(node_pack) { unimplemented!() }
+}
+// how a failed init is reported
+spec fn init_error(e: InitDirectoryError) -> BuildError {
+    match e { InitDirectoryError::FailedToReadCurrentFileStates(x) => BuildError::FailedToReadCurrentFileStates(x), _ => BuildError::DirectoryMalfunction }
+}
+
+//@ extract build.rs fn build range /let mut elements =/ .. /let mut handles = Vec::new\(\);/
+//@ props C01 C02 C05 C09 C11
+//@ sig fn build_head<SystemType : System + 'static>(system: &mut SystemType, params: BuildParams) -> (res: Result<(Elements<SystemType>, DownloadUrls, ChannelPack), BuildError>)
+//@ close Ok((elements, download_urls, channel_pack))
+//@ rewrite 1 /directory::init\(&mut system,/ => directory_init(&mut *system,
+//@ rewrite * /&system\b/ => &*system
+//@ rewrite 1 /get_nodes\(/ => get_nodes_stub(
+//@ spec
+    ensures
+        // ruler's directory is the one the caller named; a table that cannot be read is reported as such, any other trouble with
+        // the directory as a malfunction; nothing else happens then                                                                //# O-G-head-init [C11,C05]
+        init_res::<SystemType>(params.directory_path@) matches Err(e) ==> res == Err::<(Elements<SystemType>, DownloadUrls, ChannelPack), BuildError>(init_error(e)),
+        // the plan is made from exactly the caller's rules files and goal, and wired by ChannelPack::new; the threads are given
+        // exactly what init handed out                                                                                             //# O-G-head-plan [C01,C02,C09]
+        init_res::<SystemType>(params.directory_path@) matches Ok(el) ==> (
+            (match params.urlfile_path_opt { Some(p) => urls_res(p@) is Err, None => false }) ||
+            (match nodes_res(params.rulefile_paths@, params.goal_target_opt) {
+                Err(e) => res == Err::<(Elements<SystemType>, DownloadUrls, ChannelPack), BuildError>(e),
+                Ok(np) => res matches Ok(t) && t.0 == el && t.2 == wired_pack(np)
+                    && (params.urlfile_path_opt is None ==> t.1.urls@.len() == 0)
+                    && (params.urlfile_path_opt matches Some(p) ==> Ok::<DownloadUrls, DownloadUrlsError>(t.1) == urls_res(p@)),
+            })),
+        init_res::<SystemType>(params.directory_path@) is Ok ==> (params.urlfile_path_opt matches Some(p) ==> (urls_res(p@) matches Err(e) ==> (res matches Err(BuildError::DownloadUrlsError(x)) && x == e))),
+//@ end
+
+//@ extract build.rs fn clean range /let mut elements =/ .. /let mut handles = Vec::new\(\);/
+//@ props C10 C05 C09 C11
+//@ sig fn clean_head<SystemType : System + 'static>(system: &mut SystemType, directory_path : &str, rulefile_paths: Vec<String>, goal_target_opt: Option<String>) -> (res: Result<(Elements<SystemType>, NodePack), BuildError>)
+//@ close Ok((elements, node_pack))
+//@ rewrite 1 /directory::init\(&mut system,/ => directory_init(&mut *system,
+//@ rewrite 1 /get_nodes\(&mut system,/ => get_nodes_stub(&*system,
+//@ spec
+    ensures
+        //# O-G-clean-head-init [C11,C05]
+        init_res::<SystemType>(directory_path@) matches Err(e) ==> res == Err::<(Elements<SystemType>, NodePack), BuildError>(init_error(e)),
+        // clean works from the same plan a build of the same files and goal would                                                  //# O-G-clean-head-plan [C10,C09]
+        init_res::<SystemType>(directory_path@) matches Ok(el) ==> (match nodes_res(rulefile_paths@, goal_target_opt) {
+            Err(e) => res == Err::<(Elements<SystemType>, NodePack), BuildError>(e),
+            Ok(np) => res == Ok::<(Elements<SystemType>, NodePack), BuildError>((el, np)),
+        }),
+//@ end
+
 // ================= build(): one thread per leaf, then one per rule of the plan =================
-//@ extract packet.rs struct Packet
-//@ end
-//@ extract packet.rs enum PacketError
-//@ end
 //@ extract build.rs struct ChannelPack
 //@ end
 //@ extract build.rs struct DownloadUrls
@@ -175,8 +266,6 @@ struct Sender<T> { id: Ghost<int>, x: Ghost<Option<T>> }     // std::sync::mpsc,
 struct Receiver<T> { id: Ghost<int>, x: Ghost<Option<T>> }
 struct RuleHistory { x: Ghost<int> }
 impl RuleHistory { #[verifier::external_body] fn new() -> (r: RuleHistory) { unimplemented!() } }
-struct HistoryError { x: u8 }
-enum BuildError { HistoryError(HistoryError), Other(u8) }     // (the one variant this code constructs; any other use: undecided)
 
 // ASSUMED (R8): derived / std clones copy
 impl Clone for Ticket { #[verifier::external_body] fn clone(&self) -> (r: Self) ensures r == *self { unimplemented!() } }
